@@ -7,7 +7,8 @@ import (
 	"encoding/binary"
 	"fmt"
 	"math/big"
-	"runtime/metrics"
+	"os"
+	"runtime"
 
 	"github.com/cloudflare/circl/oprf"
 
@@ -44,11 +45,13 @@ func init() {
 	})
 }
 
-var allocSample = []metrics.Sample{{Name: "/gc/heap/allocs:bytes"}}
+// allocBytes is the exact number of heap bytes allocated so far (runtime.ReadMemStats flushes the per-P allocation
+// caches; the runtime/metrics counter lags by whole spans, which is too coarse for a per-call delta).
+var allocMS runtime.MemStats
 
 func allocBytes() uint64 {
-	metrics.Read(allocSample)
-	return allocSample[0].Value.Uint64()
+	runtime.ReadMemStats(&allocMS)
+	return allocMS.TotalAlloc
 }
 
 type lenField struct {
@@ -72,13 +75,16 @@ type c03Target struct {
 }
 
 type c03World struct {
-	honestOK   map[string]bool
-	c          *core.Ctx
-	allocC     uint64
-	allocSlope uint64
-	targets    []*c03Target
-	maxDelta   uint64
-	arg        *c03Args
+	honestAlloc map[string]uint64 // per target: largest allocation of an honest call (calibration)
+	honestLen   map[string]int    // per target: length of the honest input that allocation belongs to
+	seenAlloc   map[string]uint64 // per target: largest allocation/bound ratio seen (x1000)
+	honestOK    map[string]bool
+	c           *core.Ctx
+	allocC      uint64
+	allocSlope  uint64
+	targets     []*c03Target
+	maxDelta    uint64
+	arg         *c03Args
 }
 
 // invoke makes one monitored call.
@@ -116,6 +122,30 @@ func (w *c03World) invoke(t *c03Target, family string, in []byte) {
 	}
 	if delta > w.maxDelta {
 		w.maxDelta = delta
+	}
+	// per-target bound: an input may cost a small multiple of what the target's own honest input costs, scaled by the
+	// length ratio where the input is longer than the honest one, plus a small constant
+	if ha, ok := w.honestAlloc[t.name]; ok && family != "calibration" {
+		scale := uint64(1)
+		if hl := w.honestLen[t.name]; hl > 0 && len(in) > hl {
+			scale = uint64((len(in) + hl - 1) / hl)
+		}
+		tb := c03TargetFactor * ha * scale
+		if lin := uint64(c03TargetPerByte * len(in)); lin > tb {
+			tb = lin // bookkeeping per decoded element (slice headers, growth) is linear in the input with a modest constant
+		}
+		tb += c03TargetConst
+		if delta > tb {
+			c.Violation("alloc-vs-own-honest-cost:"+t.name, fmt.Sprintf("%s allocated %d bytes for a %d-byte input; its own honest %d-byte input costs %d bytes (bound %d = max(%dx that scaled by the length ratio, %d bytes per input byte) + %d)", t.name, delta, len(in), w.honestLen[t.name], ha, tb, c03TargetFactor, c03TargetPerByte, c03TargetConst),
+				map[string]any{"target": t.name, "family": family, "input": core.Hex(in[:min(len(in), 4096)]), "input_len": len(in), "allocated": delta, "bound": tb, "honest_cost": ha, "honest_len": w.honestLen[t.name]})
+		}
+		if os.Getenv("VERIF_ALLOC_DEBUG") != "" && delta*1000/tb > w.seenAlloc[t.name] {
+			w.seenAlloc[t.name] = delta * 1000 / tb
+			if f, err := os.OpenFile(fmt.Sprintf("%s-%d.log", os.Getenv("VERIF_ALLOC_DEBUG"), os.Getpid()), os.O_APPEND|os.O_CREATE|os.O_WRONLY, 0o644); err == nil {
+				fmt.Fprintf(f, "ALLOCDBG %s ratio_x1000=%d delta=%d len=%d honest=%d honestlen=%d family=%s\n", t.name, delta*1000/tb, delta, len(in), ha, w.honestLen[t.name], family)
+				f.Close()
+			}
+		}
 	}
 	if accepted && family == "malformed" {
 		c.Violation("malformed-accepted:"+t.name, t.name+" returned success for an input that is malformed by construction (an element or scalar that is not a valid encoding)",
@@ -233,6 +263,13 @@ func (w *c03World) mutate(t *c03Target, seed []byte, family string, r *core.Rand
 					b := append([]byte{}, seed...)
 					binary.BigEndian.PutUint16(b[f.off:], uint16(v))
 					w.invoke(t, "lenfield", b)
+					// and the message cut right behind the field, or a few bytes later: the announced bytes are not there
+					if v >= 1024 && f.off+2 <= len(b) {
+						w.invoke(t, "lenfield", b[:f.off+2])
+						if f.off+5 <= len(b) {
+							w.invoke(t, "lenfield", b[:f.off+5])
+						}
+					}
 				}
 			}
 		}
@@ -268,6 +305,16 @@ func (w *c03World) mutate(t *c03Target, seed []byte, family string, r *core.Rand
 					w.invoke(t, "varint", b)
 				}
 			}
+		}
+	case "exhaustion":
+		// several hundred refused inputs in a row on the same object (a resource taken per call and not given back on the
+		// refusing path runs out), then - by the caller of mutate - the honest input again
+		if t.malformed == nil || !bytesEq(seed, t.seeds[0]) {
+			return
+		}
+		ms := t.malformed(r)
+		for k := 0; k < 320 && len(ms) > 0; k++ {
+			w.invoke(t, "exhaustion", ms[k%len(ms)])
 		}
 	case "malformed":
 		if t.malformed == nil || !bytesEq(seed, t.seeds[0]) {
@@ -340,10 +387,17 @@ func (w *c03World) mutate(t *c03Target, seed []byte, family string, r *core.Rand
 	}
 }
 
-var c03Families = []string{"truncate", "extend", "lenfield", "varint", "tag", "bitflip", "random", "rebuild", "malformed"}
+// per-target allocation bound: factor on the target's own honest cost and additive constant
+const (
+	c03TargetFactor  = 4
+	c03TargetPerByte = 256
+	c03TargetConst   = 16 << 10
+)
+
+var c03Families = []string{"truncate", "extend", "lenfield", "varint", "tag", "bitflip", "random", "rebuild", "malformed", "exhaustion"}
 
 func runC03(c *core.Ctx) {
-	w := &c03World{c: c, honestOK: map[string]bool{}}
+	w := &c03World{c: c, honestOK: map[string]bool{}, honestAlloc: map[string]uint64{}, honestLen: map[string]int{}, seenAlloc: map[string]uint64{}}
 	w.build()
 	// calibration of the allocation constant on the honest encodings of every target
 	var maxHonest, maxRatio uint64
@@ -360,6 +414,9 @@ func runC03(c *core.Ctx) {
 				d := allocBytes() - before
 				if d > maxHonest {
 					maxHonest = d
+				}
+				if d >= w.honestAlloc[t.name] {
+					w.honestAlloc[t.name], w.honestLen[t.name] = d, len(s)
 				}
 				if len(s) > 0 && d/uint64(len(s)) > maxRatio {
 					maxRatio = d / uint64(len(s))
@@ -455,7 +512,7 @@ func (w *c03World) build() {
 	} {
 		chal = append(chal, tc.Marshal())
 	}
-	w.add(&c03Target{name: "tokens.UnmarshalTokenChallenge", seeds: chal, tagged: true,
+	w.add(&c03Target{name: "tokens.UnmarshalTokenChallenge", seeds: chal, tagged: true, rebuild: rebuildChallenge,
 		fields: func(b []byte) []lenField {
 			var fs []lenField
 			if len(b) < 4 {
@@ -589,7 +646,8 @@ func (w *c03World) build() {
 			}
 			return iss5.Verify(t) == nil
 		}})
-	w.add(&c03Target{name: "type5.TokenRequest.Unmarshal+Evaluate", seeds: req5s, tagged: true, fields: varintAt(3), rebuild: rebuildType5Request,
+	w.add(&c03Target{name: "type5.TokenRequest.Unmarshal+Evaluate", seeds: req5s, tagged: true, fields: varintAt(3),
+		rebuild: func(r *core.Rand) [][]byte { return append(rebuildType5Request(r), rebuildType5Large(r, req5s[0])...) },
 		malformed: func(r *core.Rand) [][]byte {
 			// each honest request with each of its elements, in turn, replaced by a string that is no ristretto255 encoding
 			var out [][]byte
@@ -759,6 +817,56 @@ func (w *c03World) build() {
 			call: func(b []byte) bool { _, err := batched.UnmarshalBatchedTokenResponses(b); return err == nil }})
 	}
 
+	// ---- decode-only targets (no evaluation behind them, so the honest cost - and with it the bound - is the decoder's own)
+	for _, rc := range reqCodecs() {
+		rc := rc
+		var seeds [][]byte
+		switch rc.name {
+		case "type1.TokenRequest":
+			seeds = [][]byte{req1}
+		case "type2.TokenRequest":
+			seeds = [][]byte{req2}
+		case "type5.TokenRequest":
+			seeds = req5s
+		case "type3.TokenRequest":
+			seeds = [][]byte{req3}
+		default:
+			continue
+		}
+		tgt := &c03Target{name: rc.name + ".Unmarshal(decode only)", seeds: seeds, tagged: true,
+			call: func(b []byte) bool {
+				o, _ := rc.mk()
+				if !o.Unmarshal(b) {
+					return false
+				}
+				o.Marshal()
+				return true
+			}}
+		switch rc.name {
+		case "type3.TokenRequest":
+			tgt.fields = u16At(83)
+		case "type5.TokenRequest":
+			tgt.fields = varintAt(3)
+			tgt.rebuild = func(r *core.Rand) [][]byte { return rebuildType5Large(r, req5s[0]) }
+		}
+		w.add(tgt)
+	}
+	{
+		big1, big2 := rebuildBatchLarge(req1, req2)
+		small := append(refVarintEnc(uint64(len(req1)+len(req2))), append(clone(req1), req2...)...)
+		w.add(&c03Target{name: "batched.TokenRequest.Unmarshal(decode only)", seeds: [][]byte{small}, fields: varintAt(0),
+			rebuild: func(r *core.Rand) [][]byte {
+				return append(append(rebuildBatchRequest(r, req1, req2), big1...), big2...)
+			},
+			call: func(b []byte) bool {
+				q := new(batched.BatchedTokenRequest)
+				if !q.Unmarshal(b) {
+					return false
+				}
+				q.Marshal()
+				return true
+			}})
+	}
 	// ---- util.UnmarshalTokenKey
 	der1, _ := util.MarshalTokenKey(&rk[0].PublicKey, false)
 	der2, _ := util.MarshalTokenKey(&rk[0].PublicKey, true)
